@@ -242,3 +242,43 @@ Example C10_history_nonvacuous :
   Forall query_ok (firstn 2 c10_history) /\ all_succeed rv_fixed db_new (firstn 2 c10_history).
 Proof. exact c10_history_ok. Qed.
 Print Assumptions C10_history_nonvacuous.
+
+(* ---- all histories, UNCONDITIONALLY (supersedes C10_step / C10_transaction_partial / C10_history_partial) ----
+   `traversal_live rv_fixed` is no longer a hypothesis.  theories/TraversalLiveProofs.v proves, from the
+   C14 / C17 / C18 developments under the graph invariant wf:
+     traversal_live_on rv_fixed = breadth/depth-first searches (any conditions, any limit/offset) and
+     path searches (any conditions) started from EXISTING origins / destinations return only existing
+     elements; hence search_live rv_fixed (every id returned by ANY search exists in an Inv state).
+   The hypothesis as it was literally stated above is FALSE (C10_traversal_live_refuted): its path-search
+   clause did not ask the origin to exist, and the raw path_search started at the negated id of a node
+   returns that negated id.  DbImpl resolves every origin through db_id, so the relativised statement is
+   the one that matters; the three `_partial` theorems above were vacuous and are kept for the record.
+   Still restricted here to histories without failing queries; C13_history_atomic (Props/C13.v) removes
+   that restriction. *)
+From Agdb Require Import TraversalLiveProofs DbInvariantProofs.
+
+Theorem C10_traversal_live :
+  traversal_live_on rv_fixed /\ search_live rv_fixed.
+Proof. exact (conj traversal_live_holds search_live_fixed). Qed.
+Print Assumptions C10_traversal_live.
+
+Theorem C10_traversal_live_refuted : ~ traversal_live rv_fixed.
+Proof. exact traversal_live_refuted. Qed.
+Print Assumptions C10_traversal_live_refuted.
+
+Theorem C10_step_inv :
+  forall d q, query_ok q -> Inv d -> Inv (step_db (exec_mut_step rv_fixed d q)).
+Proof. exact step_Inv_fixed. Qed.
+Print Assumptions C10_step_inv.
+
+Theorem C10_transaction :
+  forall d qs acc, Forall query_ok qs -> Inv d ->
+  let d1 := fst (fst (txn_run rv_fixed d qs acc)) in alias_bij d1 /\ alias_nodes d1.
+Proof. intros d qs acc Hq Hd. apply Inv_aliases. now apply transaction_state_Inv_fixed. Qed.
+Print Assumptions C10_transaction.
+
+Theorem C10_history :
+  forall qs, Forall query_ok qs -> all_succeed rv_fixed db_new qs ->
+  alias_bij (exec_all rv_fixed db_new qs) /\ alias_nodes (exec_all rv_fixed db_new qs).
+Proof. exact history_aliases_fixed. Qed.
+Print Assumptions C10_history.
